@@ -376,7 +376,7 @@ def run(ctx):
 
 
 MANIFEST_ENTRY = {
-    "technique": "static analysis: traversal completeness of the argument collector (iteration facts, rules/sem.py), count-type conflict table by exhaustive constructor case analysis (rules/dtable.py), MIR who-builds of the argument set (helpers attributed to their caller), symbolic evaluation of the t! setter names, template inspection of the generated TypedBuilder, MIR provenance of the count key; thorough: rustc compile-fail witnesses with compiling twins",
+    "technique": "static analysis: traversal completeness of the argument collector (syn, canonical form), abstract evaluation (rules/absint.py) of InterpolationKeys::push_count (count-type conflict table, stored in the variable's own record) and of the builder setters, MIR who-may-reset checks, rustc compile_fail witnesses with compiling twins (thorough)",
     "level_text": "Structural: the set of required arguments is shown to be collected from every kind of value of every locale into one grow-only set, and every member is shown to become a mandatory builder field; the witnesses let rustc itself confirm on one mixed-kind fixture that omissions do not type-check.",
     "level_note": "Trusted: typed-builder's compile-time enforcement. Not decided: trait-bound satisfaction of concrete argument types.",
 }
